@@ -25,7 +25,7 @@ RULE = ("random histories of 25-60 steps over a 7-path universe (2 top-level mod
         "validate, undo/redo); distinct = multiset of step kinds (bucketed)")
 ASSUMPTIONS = ["external changes are followed by validate(); they change mtime or size (the documented indicator)",
                "automatic_soa / perform_doa off on both sides: accumulated call information is not a cache"]
-BUDGET = {"quick": (900, 70), "thorough": (20000, 480)}
+BUDGET = {"quick": (900, 240), "thorough": (7700, 900)}
 EXHAUSTIVE = {}
 CASE_TIMEOUT = 600
 REQUIRE = {"views_compared": 3000, "module_cache_hits": 1000, "external_then_validate": 200, "filelist_cached_returns": 500}
